@@ -94,7 +94,8 @@ int EGLPNUM_TYPENAME_ILLis_lp_name_char (
 					(('A' <= c) && (c <= 'Z')) ||
 					((pos > 0) && ('0' <= c) && (c <= '9')) ||
 					((pos > 0) && (c == '.')) ||
-					(strchr ("!\"#$%&()/,;?@_`'{}|~", c) != NULL));
+					/* strchr finds the terminating NUL of the set: '\0' is not a name char */
+					((c != '\0') && (strchr ("!\"#$%&()/,;?@_`'{}|~", c) != NULL)));
 }
 
 
